@@ -16,7 +16,8 @@ Inductive shape :=
 | SNorm (pops pushes : nat)                 (* falls through; may throw *)
 | SJump (off : Z)
 | SCond (off : Z) (pops pfall pjump : nat)  (* conditional jump: pops, then pushes pfall / pjump *)
-| SOptJump (off : Z) (pops pfall pjump : nat) (* jopt / joptc: jumps iff the top is null/undefined and then leaves undefined on top *)
+| SOptJump (off : Z) (pops pfall pjump : nat) (keeps : bool)
+                                            (* jopt* family: jumps iff the top is null/undefined; keeps: undefined is then left on top *)
 | STry (coff foff : nat)                    (* catch / finally offsets, 0 = absent *)
 | SLeaveTry | SEnterFinally | SLeaveFinally
 | SThrow (pops : nat)                       (* always throws *)
@@ -97,12 +98,14 @@ Definition core (sh : shape) (pc : nat) (cx : aux) (sg : list seg) : option (lis
       | Some sg', Some t => Some [(S pc, clr cx, push_top pf sg'); (t, clr cx, push_top pj sg')]
       | _, _ => None
       end
-  | SOptJump off p pf pj =>
-      (* vm.go jopt / joptc: null or undefined on top => undefined is left on top and the jump is taken *)
+  | SOptJump off p pf pj keeps =>
+      (* vm.go jopt / joptc (leave undefined on top) and joptdel* (leave true / nothing): the jump is taken
+         iff the top is null or undefined *)
       match pop_top p sg, jtarget pc off with
       | Some sg', Some t =>
-          if x_nul cx then Some [(t, cx, push_top pj sg')]
-          else Some [(S pc, clr cx, push_top pf sg'); (t, setnul cx, push_top pj sg')]
+          let cj := if keeps then setnul cx else clr cx in
+          if x_nul cx then Some [(t, cj, push_top pj sg')]
+          else Some [(S pc, clr cx, push_top pf sg'); (t, cj, push_top pj sg')]
       | _, _ => None
       end
   | SThrow p =>
@@ -152,7 +155,7 @@ Definition core (sh : shape) (pc : nat) (cx : aux) (sg : list seg) : option (lis
 
 Definition is_core (sh : shape) : bool :=
   match sh with
-  | SNorm _ _ | SJump _ | SCond _ _ _ _ | SOptJump _ _ _ _ | SThrow _ | SEnter _ _ _ | SLeave _
+  | SNorm _ _ | SJump _ | SCond _ _ _ _ | SOptJump _ _ _ _ _ | SThrow _ | SEnter _ _ _ | SLeave _
   | SStartVar | SSpread | SCallVar _ | SEndVar => true
   | _ => false
   end.
@@ -257,10 +260,14 @@ Definition asucc (code : list shape) (md : mode) (m : amap) (pc : nat) (s : asta
 Definition init_state (md : mode) : astate :=
   mkA aux0 [mkseg (match md with MGlobal => 0 | _ => 1 end) true] [].
 
+(* at the end of the code no block slot may be left; zero-sized block records (a field initialiser that starts
+   with a function prologue) and the known-undefined flag are immaterial *)
+Definition norm (x : aux) : aux := if ret_lo x =? 2 then aux0 else x.
+
 Definition final_ok (md : mode) (s : astate) : bool :=
   match md with
   | MFunc => false
-  | _ => astate_eqb s (init_state md)
+  | _ => astate_eqb (mkA (norm (a_aux s)) (a_segs s) (a_ts s)) (init_state md)
   end.
 
 (* [check code md m]: m is an inductive invariant of the abstract machine that contains the entry state *)
@@ -376,7 +383,7 @@ Definition step (code : list shape) (md : mode) (ch : choice) (st : cstate) : ou
   if pc st =? len then
     match md, frames st with
     | MFunc, _ => Fault
-    | _, [] => if aux_eqb (cx st) aux0 && list_eqb seg_eqb (segs st) (a_segs (init_state md)) then Done else Fault
+    | _, [] => if aux_eqb (norm (cx st)) aux0 && list_eqb seg_eqb (segs st) (a_segs (init_state md)) then Done else Fault
     | _, _ => Fault
     end
   else if len <? pc st then Fault
